@@ -18,6 +18,7 @@ type Factory struct {
 	Peers     []*Conn // far ends (owned by the harness)
 
 	ConnectErr error // Connect fails with this error
+	CloseErr   error // handed to every transport given to the system: its Close closes and reports this error
 	ListenErr  error
 	ListenFailN int // with ListenErr set: only the first N Listen calls fail (0: all)
 	listenCalls int
@@ -57,6 +58,7 @@ func (f *Factory) newPair(name string) (*Conn, *Conn) {
 	far := NewConn(f.sim, name+"-peer")
 	near.Frag, far.Frag = f.Frag, f.Frag
 	near.Peer, far.Peer = far, near
+	near.CloseErr = f.CloseErr
 	f.Conns = append(f.Conns, near)
 	f.Peers = append(f.Peers, far)
 	return near, far
